@@ -234,15 +234,6 @@ theorem panos_config_block :
 
 /-! ## NSX -/
 
-theorem nsx_rep (ρ : Role) (hρ : (ρ != .change) = true) : ∀ r : Reply, r.arr = .closed → badChecked .nsx ρ r = false ∨ ρ ≠ .read := by
-  intro r h
-  by_cases hr : ρ = .read
-  · left
-    subst hr
-    have hp : promptArrives r = false := by simp [promptArrives, h]
-    simp [badChecked, hp, replayed, h, Backend.isConsole]
-  · exact Or.inr hr
-
 theorem nsxSendRequest_spec (ρ : Role) (hρ : ρ = .change ∨ ρ = .read) (t : Txt) (env : Env) (s : St)
     (hj : J (badChecked .nsx) s) (hm : s.mode = .run) :
     HttpOut (badChecked .nsx) ρ (fun r => r.arr = .full ∧ r.status200 = true) (exec (nsxSendRequest ρ t) env s) := by
